@@ -109,7 +109,7 @@ struct ExtraOps<V, true> {
         size_t n = r.below(4);
         if (m.size() + n > room) n = room - m.size();
         v.append((S)n);
-        m.insert(m.end(), n, Val{0, 0});
+        m.insert(m.end(), n, std::is_same<T, EAgg>::value ? Val{0, 7} : Val{0, 0});
         snprintf(b, sizeof b, "append(%zu)", n); desc = b;
         return true;
       }
@@ -154,6 +154,7 @@ struct VecScript {
   typedef typename V::value_type T;
   typedef typename V::size_type S;
 
+  static Val value_init_val() { return std::is_same<T, EAgg>::value ? Val{0, 7} : Val{0, 0}; }
   static void check(const V &v, const std::vector<Val> &m, const char *what) {
     if ((size_t)v.size() != m.size() || v.empty() != m.empty()) { model_fail(what); return; }
     size_t i = 0;
@@ -256,7 +257,7 @@ struct VecScript {
             case 13: case 14: {
               size_t n = r.below((unsigned)room + 1);
               if (n > 12) n = n % 12;
-              if (op == 13) { v.resize((S)n); m.resize(n, Val{0, 0}); snprintf(d, sizeof d, "resize(%zu)", n); }
+              if (op == 13) { v.resize((S)n); m.resize(n, value_init_val()); snprintf(d, sizeof d, "resize(%zu)", n); }
               else { Val x{(int)r.below(50), ++pay}; T t(x.key, x.pay); v.resize((S)n, t); m.resize(n, x); snprintf(d, sizeof d, "resize(%zu,%d:%d)", n, x.key, x.pay); }
               desc = d;
             } break;
@@ -344,7 +345,7 @@ struct VecScript {
             case 31: {
               size_t n = r.below(4);
               if (n > room) n = room;
-              { V c((S)n); std::vector<Val> mc(n, Val{0, 0}); check(c, mc, "ctor(n)"); }
+              { V c((S)n); std::vector<Val> mc(n, value_init_val()); check(c, mc, "ctor(n)"); }
               Val x{(int)r.below(50), ++pay};
               T t(x.key, x.pay);
               { V c((S)n, t); std::vector<Val> mc(n, x); check(c, mc, "ctor(n,v)"); }
@@ -533,6 +534,8 @@ static Config kConfigs[] = {
     {"SmallVector<ETriv,2,B,u8>", &VecScript<amc::SmallVector<ETriv, 2, ABT(ETriv), uint8_t> >::run, 11},
     {"SmallVector<ETrivS,3,B>", &VecScript<amc::SmallVector<ETrivS, 3, ABT(ETrivS)> >::run, 11},
     {"Fixed<ETr,6>", &VecScript<amc::FixedCapacityVector<ETr, 6> >::run, 11},
+    {"vector<EAgg,B>", &VecScript<amc::vector<EAgg, ABT(EAgg)> >::run, 11},
+    {"Fixed<EAgg,6>", &VecScript<amc::FixedCapacityVector<EAgg, 6> >::run, 11},
     {"Fixed<ENonTr,5>", &VecScript<amc::FixedCapacityVector<ENT, 5> >::run, 11},
     {"FlatSet<ETriv,B>", &SetScript<amc::FlatSet<ETriv, Cmp0, ABT(ETriv)>, true>::run, 11},
     {"FlatSet<ENonTr,SmallVector<4,S>>", &SetScript<amc::FlatSet<ENT, Cmp0, SimStdAlloc<ENT>, amc::SmallVector<ENT, 4, SimStdAlloc<ENT> > >, true>::run, 11},
